@@ -350,6 +350,9 @@ def _container_complete(ctx, unit: Unit, cfg: CFG, siter: Node, src: str) -> Opt
             if why:
                 return f"container `{name}` is built from `{comp.id}`: {why}"
             continue
+        if isinstance(comp, ast.Call) and norm(comp.func).split(".")[-1] == "map" and len(comp.args) == 2 \
+                and isinstance(comp.args[1], ast.Name) and norm(comp.args[0]).split(".")[-1] in ("aiter", "iter"):
+            continue  # ``map(aiter, iterables)``: one iterator per argument, none left out
         if isinstance(comp, (ast.ListComp, ast.GeneratorExp)):
             if any(g.ifs for g in comp.generators):
                 return f"container `{name}` is built by a filtered comprehension: some iterators are never closed"
